@@ -341,8 +341,14 @@ def _concrete(w, rep):
     return bad
 
 
+# ------------------------------------------------------------------ participant half
+exec(open(os.path.join(os.path.dirname(os.path.abspath(__file__)), 'c03_participant.py')).read())
+
 for v in ck.violations:
     w = v['witness']
+    if w.get('participant'):
+        v['native'], v['replayed'] = participant_replay(w)
+        continue
     if w.get('call') == 'cleanup_timeouts':
         clock = w.get('clock') or [0]
         w['timed_out'] = any(((c - w['table']['started_at']) % (1 << 64)) > w['table']['timeout_ms'] for c in clock)
